@@ -10,7 +10,7 @@
    TLC checks Impl |= Contract for every expression of the bounded space, every path up to
    depth 3 and every choice-map shape, and exports the Den table that the harness compares the
    real objects against.                                                                         *)
-EXTENDS Naturals, Sequences, SequencesExt, FiniteSets, TLC, TLCExt, Json, IOUtils
+EXTENDS SelOps, FiniteSets, TLC, TLCExt, Json, IOUtils
 
 CONSTANTS Depth,        \* nesting depth of not/or/and above the atoms
           AtomKind      \* "small" | "full" : which atom set is used
@@ -18,14 +18,6 @@ CONSTANTS Depth,        \* nesting depth of not/or/and above the atoms
 Addrs == {"a", "b"}
 PathsUpTo(n) == UNION {[1..k -> Addrs] : k \in 0..n}
 Paths == PathsUpTo(3) \ {<<>>}
-
-A(k) == [k |-> k]
-StrS(x) == [k |-> "str", s |-> x]
-TupS(t) == [k |-> "tup", t |-> t]
-DictS(d) == [k |-> "dict", d |-> d]
-NotS(x) == [k |-> "not", x |-> x]
-OrS(x, y) == [k |-> "or", x |-> x, y |-> y]
-AndS(x, y) == [k |-> "and", x |-> x, y |-> y]
 
 SmallAtoms == {A("all"), A("none"), StrS("a"), StrS("b"), TupS(<<"a">>), TupS(<<"a", "b">>),
                TupS(<<"b", "a">>), TupS(<<"a", "a", "b">>),
@@ -43,49 +35,6 @@ SelsOfDepth(d) == IF d = 0 THEN Atoms
                          \cup {OrS(s, t) : s \in S, t \in S}
                          \cup {AndS(s, t) : s \in S, t \in S}
 Sels == SelsOfDepth(Depth)
-
------------------------------------------------------------------------------
-(* Contract: the Boolean algebra on paths *)
-RECURSIVE Den(_, _)
-Den(s, p) ==
-  CASE s.k = "all"  -> TRUE
-    [] s.k = "none" -> FALSE
-    [] s.k = "str"  -> Len(p) >= 1 /\ p[1] = s.s
-    [] s.k = "tup"  -> IsPrefix(s.t, p)
-    [] s.k = "dict" -> Len(p) >= 1 /\ p[1] \in DOMAIN s.d /\ Den(s.d[p[1]], Tail(p))
-    [] s.k = "not"  -> ~Den(s.x, p)
-    [] s.k = "or"   -> Den(s.x, p) \/ Den(s.y, p)
-    [] s.k = "and"  -> Den(s.x, p) /\ Den(s.y, p)
-
------------------------------------------------------------------------------
-(* Impl: match returns <<hit, remainder>>, exactly as the *Sel classes are written *)
-RECURSIVE Match(_, _)
-Match(s, a) ==
-  CASE s.k = "all"  -> <<TRUE, s>>
-    [] s.k = "none" -> <<FALSE, s>>
-    [] s.k = "str"  -> IF a = s.s THEN <<TRUE, A("all")>> ELSE <<FALSE, A("none")>>
-    [] s.k = "tup"  -> IF Len(s.t) = 0 THEN <<FALSE, A("none")>>
-                       ELSE IF a = s.t[1]
-                            THEN IF Len(s.t) = 1 THEN <<TRUE, A("all")>>
-                                 ELSE <<TRUE, TupS(Tail(s.t))>>
-                            ELSE <<FALSE, A("none")>>
-    [] s.k = "dict" -> IF a \in DOMAIN s.d THEN <<TRUE, s.d[a]>> ELSE <<FALSE, A("none")>>
-    [] s.k = "not"  -> LET m == Match(s.x, a) IN <<~m[1], NotS(m[2])>>
-    [] s.k = "or"   -> LET m == Match(s.x, a) n == Match(s.y, a) IN <<m[1] \/ n[1], OrS(m[2], n[2])>>
-    [] s.k = "and"  -> LET m == Match(s.x, a) n == Match(s.y, a) IN <<m[1] /\ n[1], AndS(m[2], n[2])>>
-
-(* `() in s` : match against the empty tuple address, hit flag only *)
-RECURSIVE LeafHit(_)
-LeafHit(s) ==
-  CASE s.k = "all" -> TRUE [] s.k = "none" -> FALSE [] s.k = "str" -> FALSE
-    [] s.k = "tup" -> FALSE   \* a non-empty tuple never equals (): path[0] == () is false
-    [] s.k = "dict" -> FALSE
-    [] s.k = "not" -> ~LeafHit(s.x) [] s.k = "or" -> LeafHit(s.x) \/ LeafHit(s.y)
-    [] s.k = "and" -> LeafHit(s.x) /\ LeafHit(s.y)
-
-(* what Fn's Regenerate handler does: thread the remainder down the path, decide at the leaf *)
-RECURSIVE SelectedOp(_, _)
-SelectedOp(s, p) == IF p = <<>> THEN LeafHit(s) ELSE SelectedOp(Match(s, p[1])[2], Tail(p))
 
 -----------------------------------------------------------------------------
 (* choice-map shapes: prefix-free sets of leaf paths *)
